@@ -2243,19 +2243,27 @@ class NetCDFRead(IORead):
             # Note: We pass in the s3 file system (if any) of the
             #       parent file in case we can resuse it for the
             #       external file
-            external_read_vars = self.read(
-                external_file,
-                _scan_only=True,
-                _file_systems=read_vars["file_systems"],
-                verbose=verbose,
-            )
+            try:
+                external_read_vars = self.read(
+                    external_file,
+                    _scan_only=True,
+                    _file_systems=read_vars["file_systems"],
+                    verbose=verbose,
+                )
+            except BaseException:
+                # Close whatever the scan of the external file has
+                # opened
+                self.file_close()
+                raise
+            finally:
+                # Reset self.read_vars, so that the datasets of the
+                # parent file are known (and can be closed) also when
+                # the external file could not be scanned
+                self.read_vars = read_vars
 
             logger.info(
                 "Finished scanning external file\n"
             )  # pragma: no cover
-
-            # Reset self.read_vars
-            self.read_vars = read_vars
 
             datasets.append(external_read_vars["nc"])
 
